@@ -12,6 +12,7 @@ import (
 
 	"github.com/btcsuite/btcd/btcec/v2"
 	"github.com/btcsuite/btcd/btcutil"
+	"github.com/btcsuite/btcd/btcutil/hdkeychain"
 	"github.com/btcsuite/btcd/btcutil/psbt"
 	"github.com/btcsuite/btcd/chaincfg/chainhash"
 	"github.com/btcsuite/btcd/txscript"
@@ -49,6 +50,7 @@ type spArgs struct {
 	Elig  []int  `json:"elig"`
 	Sel   []int  `json:"sel"`
 	Forgotten []int `json:"forgotten"`
+	CScope    string `json:"cscope"`
 }
 
 type spSend struct {
@@ -261,9 +263,35 @@ func (w *spWorld) setup() error {
 		return err
 	}
 	for _, sc := range []waddrmgr.KeyScope{waddrmgr.KeyScopeBIP0084, waddrmgr.KeyScopeBIP0086,
-		waddrmgr.KeyScopeBIP0049Plus, waddrmgr.KeyScopeBIP0044} {
+		waddrmgr.KeyScopeBIP0049Plus} {
 		if _, err := e.w.NextAccount(sc, "second"); err != nil {
 			return fmt.Errorf("NextAccount: %w", err)
+		}
+	}
+	// account 1 of the legacy scope is an imported, watch-only account (somebody else's account key)
+	{
+		fs := sha256.Sum256([]byte("foreign-account-" + w.tagSeed))
+		fm, err := hdkeychain.NewMaster(fs[:], e.params)
+		if err != nil {
+			return err
+		}
+		k := fm
+		for _, ix := range []uint32{hdkeychain.HardenedKeyStart + 44, hdkeychain.HardenedKeyStart + 1, hdkeychain.HardenedKeyStart + 7} {
+			if k, err = k.Derive(ix); err != nil {
+				return err
+			}
+		}
+		xpub, err := k.Neuter()
+		if err != nil {
+			return err
+		}
+		props, err := e.w.ImportAccountWithScope("foreign", xpub, 0x01020304, waddrmgr.KeyScopeBIP0044,
+			waddrmgr.ScopeAddrSchema{ExternalAddrType: waddrmgr.PubKeyHash, InternalAddrType: waddrmgr.PubKeyHash})
+		if err != nil {
+			return fmt.Errorf("ImportAccountWithScope: %w", err)
+		}
+		if props.AccountNumber != 1 {
+			return fmt.Errorf("imported account got number %d, the harness expects 1", props.AccountNumber)
 		}
 	}
 	fk := sha256.Sum256([]byte("foreign-receiver-" + w.tagSeed))
@@ -523,10 +551,15 @@ func (w *spWorld) apply(st *spStep, a *spArgs, rep *common.Report) error {
 		outs := []*wire.TxOut{wire.NewTxOut(amount, w.foreign)}
 		var tx *wire.MsgTx
 		var err error
+		label := ""
+		if a.Ans == "badlabel" {
+			// a label the store refuses (longer than wtxmgr.TxLabelLimit): the wallet returns an error
+			label = strings.Repeat("x", wtxmgr.TxLabelLimit+1)
+		}
 		if st.Op == "SendExplicit" {
-			tx, err = e.w.SendOutputsWithInput(outs, &scope, uint32(a.Acct), int32(a.Mc), 1000, wallet.CoinSelectionLargest, "", sel)
+			tx, err = e.w.SendOutputsWithInput(outs, &scope, uint32(a.Acct), int32(a.Mc), 1000, wallet.CoinSelectionLargest, label, sel)
 		} else {
-			tx, err = e.w.SendOutputs(outs, &scope, uint32(a.Acct), int32(a.Mc), 1000, wallet.CoinSelectionLargest, "")
+			tx, err = e.w.SendOutputs(outs, &scope, uint32(a.Acct), int32(a.Mc), 1000, wallet.CoinSelectionLargest, label)
 		}
 		e.chain.SendAnswer = nil
 		e.chain.ArmNotifyRecvFailure(0)
@@ -671,6 +704,60 @@ func (w *spWorld) apply(st *spStep, a *spArgs, rep *common.Report) error {
 			}
 			if got := w.coinIDs(ops); !subset(got, a.Elig) {
 				w.add("inputs", what+": spends an output that is not eligible", got, fmt.Sprintf("subset of %v", sorted(a.Elig)))
+			}
+		}
+	case "CreateCS":
+		scope, cscope := scopeOf[a.Scope], scopeOf[a.CScope]
+		what := fmt.Sprintf("CreateSimpleTx(acct %d, %s, minconf %d) with change scope %s", a.Acct, a.Scope, a.Mc, a.CScope)
+		min := int64(1 << 62)
+		for _, c := range a.Elig {
+			if v := w.outOf[c].Value; v < min {
+				min = v
+			}
+		}
+		amount := min / 2
+		outs := []*wire.TxOut{wire.NewTxOut(amount, w.foreign)}
+		atx, err := e.w.CreateSimpleTx(&scope, uint32(a.Acct), outs, int32(a.Mc), 1000, wallet.CoinSelectionLargest, false,
+			wallet.WithCustomChangeScope(&cscope))
+		w.n++
+		if err != nil {
+			w.add("eligibility", what+" result", err.Error(), "ok")
+			break
+		}
+		var ops []wire.OutPoint
+		seen := map[wire.OutPoint]bool{}
+		for _, in := range atx.Tx.TxIn {
+			if seen[in.PreviousOutPoint] {
+				w.add("inputs", what+": the same output is spent twice", in.PreviousOutPoint.String(), "distinct")
+			}
+			seen[in.PreviousOutPoint] = true
+			ops = append(ops, in.PreviousOutPoint)
+		}
+		if got := w.coinIDs(ops); !subset(got, a.Elig) {
+			w.add("inputs", what+": spends an output that is not eligible", got, fmt.Sprintf("subset of %v", sorted(a.Elig)))
+			break
+		}
+		// the coins belong to an account the wallet holds keys for: every input is signed
+		w.n++
+		if err := w.verifySigs(atx.Tx); err != nil {
+			w.add("sig", what+": signature does not verify under the standard script flags", err.Error(), "valid")
+		}
+		// the change pays an internal address of the same account number in the change scope
+		for _, out := range atx.Tx.TxOut {
+			if string(out.PkScript) == string(w.foreign) {
+				continue
+			}
+			_, addrs, _, err := txscript.ExtractPkScriptAddrs(out.PkScript, e.params)
+			if err != nil || len(addrs) != 1 {
+				w.add("inputs", what+": unparsable change output", fmt.Sprint(err), "wallet change address")
+				continue
+			}
+			ma, err := e.w.AddressInfo(addrs[0])
+			if err != nil {
+				w.add("inputs", what+": change does not pay a wallet address", err.Error(), "wallet change address")
+			} else if !ma.Internal() || ma.InternalAccount() != uint32(a.Acct) {
+				w.add("inputs", what+": change address", fmt.Sprintf("internal=%v account=%d", ma.Internal(), ma.InternalAccount()),
+					fmt.Sprintf("internal=true account=%d", a.Acct))
 			}
 		}
 	case "Restart":
